@@ -63,39 +63,37 @@ def flags_in(node):
 
 
 def r2_linkage(run, F):
+    """Linkage and calling convention of a function as *tables over its flags*, whatever the form of the code that chooses
+    them (rules/flagfn.py folds the arguments of LLVMSetLinkage / LLVMSetFunctionCallConv over all sixteen assignments of
+    Public, Main, Forward, External): External linkage iff Public or Main or Forward, Private otherwise; the C calling
+    convention iff External, Fast otherwise."""
+    from rules import flagfn
     d = F.body("alpha::generator::declare")
-    found = {}
-    for n in walk(d["hir"]):
-        if n.get("k") == "Let" and isinstance(n.get("init"), dict) and n["pat"].get("k") == "Bind":
-            e = hirq.unwrap_trivial(n["init"])
-            if e.get("k") == "Call" and (hirq.callee(e) or "").startswith("alpha::generator::") and F.has_body(hirq.callee(e)):
-                # the choice may live in a helper of its own: `let linkage = linkage_of_function(flags);`
-                hb = hirq.unwrap_trivial(F.body(hirq.callee(e))["hir"])
-                e = hirq.unwrap_trivial(hb.get("e", {})) if hb.get("k") == "Block" and not hb.get("stmts") else hb
-            if e.get("k") != "If":
-                continue
-            # by role: the local selected between LLVMLinkage values / between LLVMCallConv values (its name is free)
-            built = " ".join(hirq.short(p) for p, _ in hirq.constructs(e))
-            role = "linkage" if "LLVMLinkage::" in built else "callconv" if "LLVMCallConv::" in built else None
-            if role is None:
-                continue
-            cond = flags_in(e["cond"])
-            contains = [c for c in hirq.calls(e["cond"]) if (hirq.callee(c) or "").endswith("EnumSet::contains")]
-            ors = [x for x in walk(e["cond"]) if x.get("k") == "Binary"]
-            all_or = all(x.get("op") == "Or" for x in ors)
-            then = [hirq.short(p).split("::")[-1] for p, _ in hirq.constructs(e["then"])]
-            els = [hirq.short(p).split("::")[-1] for p, _ in hirq.constructs(e["else"])] if "else" in e else []
-            found[role] = (cond, len(contains), all_or, then, els, n)
-    run.require("linkage" in found and "callconv" in found, "linkage/callconv selection not found in generator::declare")
-    cond, k, all_or, then, els, n = found["linkage"]
-    ok = cond == ["Forward", "Main", "Public"] and k == 3 and all_or and then == ["LLVMExternalLinkage"] and els == ["LLVMPrivateLinkage"]
-    run.ob("R2-LINKAGE-TABLE", "function linkage", ok, F.where(d, n),
-           "functions must get External linkage iff Public|Main|Forward and Private otherwise: cond %s (%d contains, or-only=%s) then %s else %s" % (cond, k, all_or, then, els),
-           sample={"cond_flags": cond, "then": then, "else": els})
-    cond, k, all_or, then, els, n = found["callconv"]
-    ok = cond == ["External"] and k == 1 and then == ["LLVMCCallConv"] and els == ["LLVMFastCallConv"]
-    run.ob("R2-LINKAGE-TABLE", "calling convention", ok, F.where(d, n),
-           "extern functions use the C calling convention, all others fastcc: cond %s then %s else %s" % (cond, then, els))
+    m = hirq.find_match(d, min_arms=3)
+    farm = hirq.arm_for(m, "Declaration::Function")
+    run.require(farm, "Function arm not found in generator::declare")
+    arm = farm[0]
+    helpers = {p: b for p, b in F.lib.bodies.items() if p.startswith("alpha::generator::") and "hir" in b and p.count("::") == 2}
+    FLAGS = ["Public", "Main", "Forward", "External"]
+    sl = [c for c in hirq.calls(arm["body"]) if (hirq.callee(c) or "").endswith("LLVMSetLinkage")]
+    sc = [c for c in hirq.calls(arm["body"]) if (hirq.callee(c) or "").endswith("LLVMSetFunctionCallConv")]
+    run.require(len(sc) == 1, "declare: the LLVMSetFunctionCallConv call of the Function arm was not found (%d)" % len(sc))
+    # the linkage of *the function being declared*: the LLVMSetLinkage call on the value that also gets the calling convention
+    fn_lid = hirq.unwrap_trivial(sc[0]["a"][0]).get("lid")
+    sl = [c for c in sl if hirq.unwrap_trivial(c["a"][0]).get("lid") == fn_lid]
+    run.require(len(sl) == 1, "declare: the LLVMSetLinkage call on the declared function was not found (%d)" % len(sl))
+    lt = flagfn.table(d, sl[0]["a"][1], FLAGS, defs_scope=arm["body"], helper_bodies=helpers)
+    ct = flagfn.table(d, sc[0]["a"][1], FLAGS, defs_scope=arm["body"], helper_bodies=helpers)
+    bad = sorted("/".join(sorted(k)) or "-" for k, v in lt.items()
+                 if v != ("LLVMLinkage::LLVMExternalLinkage" if (k & {"Public", "Main", "Forward"}) else "LLVMLinkage::LLVMPrivateLinkage"))
+    run.ob("R2-LINKAGE-TABLE", "function linkage", not bad, F.where(d, sl[0]),
+           "functions must get External linkage iff Public|Main|Forward and Private otherwise; wrong for the flag sets %s (e.g. %s)" % (
+               bad[:6], {("/".join(sorted(k)) or "-"): v for k, v in lt.items() if ("/".join(sorted(k)) or "-") in bad[:2]}),
+           sample={"wrong": bad})
+    badc = sorted("/".join(sorted(k)) or "-" for k, v in ct.items()
+                  if v != ("LLVMCallConv::LLVMCCallConv" if "External" in k else "LLVMCallConv::LLVMFastCallConv"))
+    run.ob("R2-LINKAGE-TABLE", "calling convention", not badc, F.where(d, sc[0]),
+           "extern functions use the C calling convention, all others fastcc; wrong for the flag sets %s" % badc[:6])
     # the chosen values are applied to the function
     cs = [hirq.callee(c) or "" for c in hirq.calls(d["hir"])]
     run.ob("R2-LINKAGE-TABLE", "applied", any(c.endswith("LLVMSetLinkage") for c in cs) and any(c.endswith("LLVMSetFunctionCallConv") for c in cs),
